@@ -291,7 +291,6 @@ type pLayer struct {
 	MediaType string `json:"mediaType"`
 	Digest    string `json:"digest"`
 	Size      int64  `json:"size"`
-	From      string `json:"from,omitempty"`
 }
 
 type pManifest struct {
